@@ -415,6 +415,8 @@ def run_floorplan(c):
             cls.append("multi-rect-hard")
         if any(m["kind"] == "fixed" and sum(m["struct"].values()) > 0 for m in c["modules"]):
             cls.append("multi-rect-fixed")
+        if any(sum(1 for v in m["struct"].values() if v >= 2) >= 2 for m in c["modules"]):
+            cls.append("two-sides-with-two-branches")
         branch = any(sum(m["struct"].values()) > 0 for m in c["modules"])
         return dict(nt=len(kinds) >= 2 and branch, cls=cls)
     finally:
@@ -429,6 +431,6 @@ def case_s(draw):
 
 
 def subchecks():
-    return [Sub("floorplans", run_floorplan, strategy=case_s(), n_quick=5000, n_thorough=60000, shrink_quick=True,
+    return [Sub("floorplans", run_floorplan, strategy=case_s(), n_quick=3000, n_thorough=60000, shrink_quick=True,
                 required=tuple("viol-" + k for k in VIOLATIONS) + ("kind-soft", "kind-hard", "kind-fixed", "multi-rect-hard",
-                                                                    "multi-rect-fixed", "ints-and-floats"))]
+                                                                    "multi-rect-fixed", "ints-and-floats", "two-sides-with-two-branches"))]
